@@ -91,6 +91,7 @@ func init() {
 		{"proc/tcp/proc.go", "tcpOnSvcConfigUpdate", "tcpProc.OnSvcConfigUpdate"},
 		{"proc/internal/hc/monitor.go", "resetHealthCheck", "Monitor.ResetHealthCheck"},
 		{"proc/internal/hc/monitor.go", "newMonitor", "NewMonitor"},
+		{"proc/internal/hc/atcp/config_actions.go", "decodePayload", "decodePayload"},
 	})
 	const reqGo = "proc/redis/request.go"
 	const hdlGo = "proc/redis/handler.go"
